@@ -176,59 +176,22 @@ Fixpoint resolve (cleanup : bool) (D : list val) (v : val) {struct v} : res val 
   | _ => Ok v
   end.
 
-(* recData.nestedSD: every digest met by the walk (disclosed ones are entered) *)
-Fixpoint collect (D : list val) (v : val) {struct v} : list val :=
+(* recData.nestedSD: every digest string met by the walk (disclosed ones are entered).  [ctx] = 3 for a string of
+   an "_sd" list, 2 for the string under "..." of an array element, 0 elsewhere (an ordinary value). *)
+Fixpoint collect (D : list val) (ctx : N) (v : val) {struct v} : list val :=
   match v with
+  | VDig _ e _ _ v' =>
+      if N.eqb ctx 0 then [] else v :: (if memv v D && N.eqb e ctx then collect D 0 v' else [])
+  | VStr _ => if N.eqb ctx 0 then [] else [v]
   | VArr l =>
-      (fix go (l : list val) : list val :=
-         match l with
-         | [] => []
-         | x :: r =>
-             match x with
-             | VObj m =>
-                 (fix dots (m' : list (string * val)) : list val :=
-                    match m' with
-                    | [] => go r
-                    | (k, g) :: r' =>
-                        if String.eqb k DOTS then
-                          match g with
-                          | VDig _ e _ _ v' =>
-                              g :: (if memv g D && N.eqb e 2 then collect D v' else []) ++ go r
-                          | VStr _ => g :: go r
-                          | _ => go r
-                          end
-                        else dots r'
-                    end) m
-             | _ => go r
-             end
-         end) l
+      flat_map (fun x => match x with
+                         | VObj m => flat_map (fun kv => if String.eqb (fst kv) DOTS then collect D 2 (snd kv) else []) m
+                         | _ => []
+                         end) l
   | VObj m =>
-      (fix find (m' : list (string * val)) : list val :=
-         match m' with
-         | [] => []
-         | (k, x) :: r' =>
-             if String.eqb k SD then
-               match x with
-               | VArr gl =>
-                   (fix sdgo (gl : list val) : list val :=
-                      match gl with
-                      | [] => []
-                      | g :: gr =>
-                          match g with
-                          | VDig _ e _ _ v' => g :: (if memv g D && N.eqb e 3 then collect D v' else []) ++ sdgo gr
-                          | _ => g :: sdgo gr
-                          end
-                      end) gl
-               | _ => []
-               end
-             else find r'
-         end) m
-      ++
-      (fix pl (m' : list (string * val)) : list val :=
-         match m' with
-         | [] => []
-         | (k, x) :: r' => if String.eqb k SD then pl r' else collect D x ++ pl r'
-         end) m
+      flat_map (fun kv => if String.eqb (fst kv) SD
+                          then match snd kv with VArr gl => flat_map (collect D 3) gl | _ => [] end
+                          else collect D 0 (snd kv)) m
   | _ => []
   end.
 
@@ -269,7 +232,7 @@ Definition verify_disclosures (payload : val) (ds : list disc) : res unit :=
     if forallb (fun d => N.leb 2 (d_e d)) ds then
       let D := map (digest a) ds in
       bind (resolve false D payload) (fun _ =>
-        let seen := collect D payload in
+        let seen := collect D 0 payload in
         if nodupv seen then
           if forallb (fun g => memv g seen) D then Ok tt else Err ENotFound
         else Err ERejected)
